@@ -3,11 +3,11 @@ From Coq Require Import ZArith NArith List Bool.
 Import ListNotations.
 From PV Require Import Interact.Model Interact.Proofs.
 
-(** For every sequence of events (child output chunks, typed chunks of any size, child EOF), every escape character (or
+(** While the child lives: for every sequence of events (child output chunks, typed chunks of any size, child EOF), every escape character (or
     none) and all filters: stdout receives the pending output and then every chunk of child output through output_filter,
     in order, until the session ends; the child receives the typed chunks through input_filter, in order, cut just before
     the FIRST escape character - the escape character and what follows are never forwarded; the terminal mode is restored. *)
-Theorem C15_interact_spec : forall esc fin fout pending evs,
+Theorem C15_interact_spec : forall esc fin fout pending evs, Forall (fun e => e <> ChildExit) evs ->
   let r := interact esc fin fout pending evs in
   to_stdout r = pending ++ outs fout (session esc fin evs) /\
   to_child r = (match esc with
@@ -17,6 +17,25 @@ Theorem C15_interact_spec : forall esc fin fout pending evs,
   mode_restored r = true.
 Proof. exact interact_spec. Qed.
 Print Assumptions C15_interact_spec.
+
+(** With the child's death in the picture (ChildExit events: the next liveness check notices): stdout still receives the
+    pending output and then every chunk the loop reads from the child, in order - in particular everything the child had
+    written before it exited is still copied (drained) before interact returns; the terminal mode is restored. *)
+Theorem C15_stdout_complete : forall esc fin fout pending evs,
+  let r := interact esc fin fout pending evs in
+  to_stdout r = pending ++ outs fout (lsession esc fin true evs) /\ mode_restored r = true.
+Proof. exact interact_stdout. Qed.
+Print Assumptions C15_stdout_complete.
+Theorem C15_drained_after_exit : forall esc fin ds rest,
+  lsession esc fin false (map ChildOut ds ++ rest) = map ChildOut ds ++ lsession esc fin false rest.
+Proof. exact drained_after_exit. Qed.
+Print Assumptions C15_drained_after_exit.
+
+(** whatever the child's fate, the escape character never reaches it *)
+Theorem C15_escape_never_forwarded : forall esc fin fout e, esc = Some e -> forall evs alive o, ~ In e (to_child o) ->
+  ~ In e (to_child (copy esc fin fout alive evs o)).
+Proof. exact escape_never_forwarded. Qed.
+Print Assumptions C15_escape_never_forwarded.
 
 Theorem C15_nothing_after_escape : forall (esc : option N) e d, esc = Some e -> ~ In e (fst (before_esc e d)).
 Proof. exact nothing_after_escape. Qed.
